@@ -44,7 +44,8 @@ def make_jobs(rnd, n):
         elif k < 7:
             src = rnd.choice(["2d6+1", "3d20k2", "b2+p", "5a8", "3c8", "f", "[1,2,3].rand()", "[1,2,3,4].shuffle()", "2d6 + 3d4 * 2", "d", "x=2d6; x+1"]).encode()
         else:
-            src = rnd.choice(["(1+2", "1 +", "[1,2", "'abc", "if", "break", "x = = 1", ".\n", "`{% %}`", "1 ? 2", "func (", ")"]).encode()
+            src = rnd.choice(["(1+2", "1 +", "[1,2", "'abc", "if", "break", "x = = 1", ".\n", "`{% %}`", "1 ? 2", "func (", ")", "", " ", "\n", "\t\n ",
+                              "/", "%", "1 +\n\n", "\xff"]).encode("latin-1")
         jobs.append({"b64": base64.b64encode(src).decode(), "flags": [rnd.random() < 0.7 for _ in range(4)] + [rnd.random() < 0.2 for _ in range(3)],
                      "lang": rnd.randrange(3), "hi": str(rnd.getrandbits(64)), "lo": str(rnd.getrandbits(64)), "seeded": rnd.random() < 0.85})
     return jobs
@@ -72,6 +73,12 @@ def run(res, tier, seed):
         res.violation({"what": "a VM run concurrently with other VMs returned something else than when run alone",
                        "source": base64.b64decode(j["b64"]).decode("utf-8", "replace"), "config": {k: j[k] for k in ("flags", "lang", "hi", "lo")},
                        "got": d["got"], "want": d["want"], "goroutines": g})
+        found += 1
+    for d in (out.get("deferred") or [])[:3]:
+        j = jobs[d["job"]]
+        res.violation({"what": "an error value obtained from one VM changed its text after ANOTHER VM (configured with another language) parsed the same input",
+                       "source": base64.b64decode(j["b64"]).decode("utf-8", "replace"), "lang": j["lang"], "other_vm_lang": d["otherLang"],
+                       "got": d["got"], "want": d["want"]})
         found += 1
     # race detector build
     race_info = {"ran": False}
